@@ -212,6 +212,8 @@ func handleExceptionSignal(vm *r.VM, blockModule *r.Module, catchBlock []*syntax
 
 		// if exception block matches exception className
 		if objClassName != "" && classID.GetLiteral() == objClassName {
+			// the exception is handled here: forget the frames it came from
+			vm.ClearErrorCallStack()
 			expCallFrame := r.NewExceptionCallFrame(blockModule, exception)
 			vm.PushCallFrame(expCallFrame)
 			// do execution (with "this" value = exception value)
@@ -226,6 +228,7 @@ func handleExceptionSignal(vm *r.VM, blockModule *r.Module, catchBlock []*syntax
 
 				return rtnValue, nil
 			}
+			vm.PopCallFrameOnError(err)
 			return nil, err
 		}
 	}
@@ -401,6 +404,7 @@ func evalConstructorDeclareStmt(vm *r.VM, node *syntax.FunctionDeclareStmt) erro
 		vm.PushCallFrame(r.NewFunctionCallFrame(module, instance))
 
 		if _, err := evalExecBlock(vm, node.ExecBlock, elems); err != nil {
+			vm.PopCallFrameOnError(err)
 			return nil, err
 		}
 
@@ -1263,6 +1267,7 @@ func execAnotherModule(vm *r.VM, libInfo r.LibNameInfo) (*r.Module, error) {
 
 		// #3. eval program
 		if _, err := evalProgram(vm, program, nil); err != nil {
+			vm.PopCallFrameOnError(err)
 			return nil, WrapRuntimeError(vm, err)
 		}
 
